@@ -14,7 +14,8 @@ from common import ImplError, frac, impl_call, s2l, short, unfrac
 
 ID = "C20"
 LEVEL = "proof"
-RULE = ("kinds: eval (prediction matrices up to 5x6, mostly short dyadic values, chain labellings: one chain / equal / "
+RULE = ("kinds: eval (prediction matrices up to 5x6, plus a few with 4099 ... 16389 experiments (thorough: up to 65539) "
+        "of multiples of 1/64; mostly short dyadic values, chain labellings: one chain / equal / "
         "unequal lengths / interleaved / non-contiguous labels; degenerate 0-row and 0-column matrices; constructor shape "
         "mismatches) through the real ModelEvaluation; evalio (real save_h5 + load_h5 in a temp dir); emap / earr / syn "
         "(id arrays of arity 2 and 3 with repeated single-agent measurements, control in any column, missing single-agent "
@@ -423,6 +424,8 @@ def gen(rng, tier):
         yield _gen_eval(rng, "eval")
     for _ in range(40 * k):
         yield _gen_eval(rng, "evalio")
+    for n in ([4099, 8195, 16389, 9001] if k == 1 else [4099, 8195, 16389, 9001, 8192, 8193, 12289, 20001, 32771, 65539]):
+        yield dict(kind="eval", big=[n, rng.choice([1, 2, 3]), rng.randrange(10 ** 6)])
     for _ in range(90 * k):
         yield _gen_ids(rng, "emap")
     for _ in range(60 * k):
@@ -1104,8 +1107,25 @@ def _run_corr(desc):
     return dict(wire=[7, mapping, smap, a, nth, rows, table], impl=impl, pred=pred, features=feats, cmp=cmp)
 
 
+def _expand_big(desc):
+    """big = [n, m, seed]: an evaluation with thousands of experiments, written compactly; values are multiples of 1/64
+    (exact in binary and cheap as rationals)"""
+    import random as _random
+    n, m, seed = desc["big"]
+    g = _random.Random(seed)
+    preds = [[g.randrange(0, 97) / 64.0 for _ in range(m)] for _ in range(n)]
+    obs = [g.randrange(0, 97) / 64.0 for _ in range(n)]
+    chains = [j % 2 for j in range(m)] if m > 1 else [0] * m
+    return dict(kind="eval", m=m, preds=preds, obs=obs, chains=chains, names=["s%d" % (i % 7) for i in range(n)],
+                chain_mode="interleaved" if m > 1 else "one", big=desc["big"])
+
+
 def run(desc):
     k = desc["kind"]
+    if "big" in desc and "preds" not in desc:
+        r = _run_eval(_expand_big(desc))
+        r["features"] = list(r["features"]) + ["thousands-of-experiments"]
+        return r
     if k in ("eval", "evalio"):
         return _run_eval(desc)
     if k == "emap":
@@ -1131,6 +1151,12 @@ def shrink(desc):
         for i in range(len(desc["tids"])):
             yield dict(desc, sids=desc["sids"][:i] + desc["sids"][i + 1:], tids=desc["tids"][:i] + desc["tids"][i + 1:],
                        obs=desc["obs"][:i] + desc["obs"][i + 1:])
+    if "big" in desc and "preds" not in desc:
+        n, m, seed = desc["big"]
+        for n2 in (n // 2, n - 1):
+            if n2 >= 1:
+                yield dict(desc, big=[n2, m, seed])
+        return
     if k in ("eval", "evalio") and len(desc["preds"]) == len(desc["obs"]) == len(desc["names"]) and len(desc["preds"]) > 1:
         for i in range(len(desc["preds"])):
             yield dict(desc, preds=desc["preds"][:i] + desc["preds"][i + 1:], obs=desc["obs"][:i] + desc["obs"][i + 1:],
